@@ -227,7 +227,9 @@ class ThermalPropertiesBase:
             )
             if mesh.eigenvectors is not None:
                 self._eigenvectors = np.array(
-                    mesh.eigenvectors[:, :, bi], dtype="double", order="C"
+                    mesh.eigenvectors[:, :, bi],
+                    dtype="c%d" % (np.dtype("double").itemsize * 2),
+                    order="C",
                 )
         else:
             self._frequencies = mesh.frequencies
@@ -293,7 +295,7 @@ class ThermalPropertiesBase:
                 )
             return t_property
         else:
-            t_property = np.zeros(len(self._frequencies[0]), dtype="double")
+            t_property = np.zeros(self._eigenvectors.shape[1], dtype="double")
             for freqs, eigvecs2, w in zip(
                 self._frequencies, np.abs(self._eigenvectors) ** 2, self._weights
             ):
